@@ -1149,8 +1149,16 @@ namespace cds { namespace intrusive {
                         return true;
                     }
                 }
-                else
-                    return false;
+                else {
+                    // The slot does not hold the item any more. The item may have been moved to a deeper array node
+                    // by a concurrent expansion of the slot: erase it by its hash if it is still the same item
+                    value_type * pVal = iter.pointer();
+                    if ( !pVal )
+                        return false;
+                    typename gc::Guard guard;
+                    auto pred = [pVal]( value_type const& item ) -> bool { return &item == pVal; };
+                    return do_erase( hash_accessor()( *pVal ), guard, std::ref( pred )) != nullptr;
+                }
             }
         }
 
